@@ -93,3 +93,42 @@ class StepShape:
         for p in path:
             e = ("field", e, p, "")
         return e
+
+
+def fanout_ok(m, q, books_field, target):
+    """does q call OrderBook::<target> on EVERY element of self.<books_field>?  Accepted idioms:
+    `for b in self.books.iter_mut() { b.target(..) }` (no adapter) and
+    `for i in 0..ASSETS { self.books[i].target(..) }`.  Returns (ok, call or None, detail)"""
+    cs = [c for c in q.calls(target) if c.target is not None and (c.target.impl_adt or "").endswith("orderbook::OrderBook")]
+    if len(cs) != 1 or not q.cfg.in_loop(cs[0].b):
+        return False, (cs[0] if cs else None), "%d calls of %s in a loop" % (len(cs), target)
+    c = cs[0]
+    if not all(a[0] == "variant" and a[2] == ("Some",) for a in c.guards):
+        return False, c, "call conditional on [%s]" % c.gtext()
+    nx = [x for x in q.calls("next") if q.cfg.in_loop(x.b)]
+    if len(nx) != 1:
+        return False, c, "%d loops" % len(nx)
+    s = StepShape.__new__(StepShape)
+    s.q = q
+    ch = StepShape.iter_chain(s, nx[0])
+    if not ch:
+        return False, c, "iterator not recognised"
+    adapters = [n for n in ch[:-1] if n not in ("into_iter", "iter_mut", "iter")]
+    if adapters:
+        return False, c, "iterator adapters %s" % adapters
+    base = ch[-1]
+    item = ("field", ("downcast", nx[0].result, "Some"), "0", "std::option::Option")
+    recv = c.args[0]
+    if fld(base, books_field) or any(x[0] == "field" and x[2] == books_field for x in walk(base)):
+        # element iteration: receiver is the loop item
+        if any(x == nx[0].result for x in walk(recv)):
+            return True, c, "iter_mut loop over all books"
+        return False, c, "receiver %s is not the loop item" % render(recv)
+    if base[0] == "agg" and base[2].endswith("Range::Range"):
+        lo, hi = base[3]
+        full = lo[0] == "const" and lo[3] == 0 and hi[0] == "const" and "ASSETS" in str(hi[2])
+        ix = [x for x in walk(recv) if x[0] == "index" and any(y[0] == "field" and y[2] == books_field for y in walk(x[1]))]
+        if full and len(ix) == 1 and ix[0][2] == item:
+            return True, c, "index loop over 0..ASSETS"
+        return False, c, "index loop does not cover 0..ASSETS with the loop variable"
+    return False, c, "loop base %s" % render(base)
